@@ -146,6 +146,10 @@ func (ft *ftrans) expr(e ast.Expr) string {
 		}
 		die("%s: binary operator %s outside subset", ft.pos(e), x.Op)
 	case *ast.CallExpr:
+		// time.Duration.Nanoseconds() is the identity on the int64 representation
+		if recv, ok := isDurationNanoseconds(ft.p, x); ok {
+			return ft.expr(recv)
+		}
 		// conversion?
 		if tv, ok := ft.p.info.Types[x.Fun]; ok && tv.IsType() {
 			if len(x.Args) != 1 {
@@ -162,6 +166,15 @@ func (ft *ftrans) expr(e ast.Expr) string {
 			return "(wrap " + ity + " " + ft.expr(x.Args[0]) + ")"
 		}
 		if id, ok := x.Fun.(*ast.Ident); ok {
+			for _, en := range ft.it.Extern {
+				if en == id.Name {
+					var args []string
+					for _, a := range x.Args {
+						args = append(args, ft.expr(a))
+					}
+					return "(f_" + id.Name + " " + strings.Join(args, " ") + ")"
+				}
+			}
 			if cn, ok := translated[ft.it.Pkg+"."+id.Name]; ok {
 				var args []string
 				for _, a := range x.Args {
@@ -373,6 +386,23 @@ func emitFunc(p *pkgInfo, it Item, sb *strings.Builder) {
 	}
 	ft := &ftrans{p: p, it: it, declared: map[string]bool{}}
 	var params []string
+	for _, en := range it.Extern {
+		ed := findFunc(p, Item{Name: en})
+		if ed == nil {
+			die("func %s: extern %s not found in package %s", it.Name, en, it.Pkg)
+		}
+		ty := "Z"
+		for _, f := range ed.Type.Params.List {
+			k := len(f.Names)
+			if k == 0 {
+				k = 1
+			}
+			for i := 0; i < k; i++ {
+				ty = "Z -> " + ty
+			}
+		}
+		params = append(params, fmt.Sprintf("(f_%s : %s)", en, ty))
+	}
 	for _, f := range fd.Type.Params.List {
 		t := p.info.Types[f.Type].Type
 		coqT := "Z"
